@@ -102,6 +102,8 @@ pub struct CaseWriter {
     pub dir: PathBuf,
     pub prop: String,
     pub cases: Vec<Case>,
+    /// inputs on which the code under test panicked outside a harness module's own guard
+    pub panicked: Vec<Value>,
 }
 
 impl CaseWriter {
@@ -110,6 +112,7 @@ impl CaseWriter {
             dir: dir.to_path_buf(),
             prop: prop.to_string(),
             cases: vec![],
+            panicked: vec![],
         }
     }
     pub fn push(&mut self, c: Case) {
@@ -172,6 +175,7 @@ impl CaseWriter {
             "distinct_nontrivial": nontrivial,
             "distribution": hist,
             "features": feats,
+            "panicked": self.panicked,
             "cases": self.cases.iter().map(|c| c.json.clone()).collect::<Vec<_>>(),
         });
         std::fs::write(self.dir.join("cases.json"), serde_json::to_vec(&side).unwrap())?;
